@@ -31,6 +31,9 @@ type Index struct {
 	Accesses map[FieldRef][]Access // FieldAddr-based loads and stores (address-taken counts as write unless only loaded)
 	Callers  map[*ssa.Function][]*ssa.Function
 	Callees  map[*ssa.Function][]*ssa.Function
+	Refs     map[*ssa.Function][]*ssa.Function // function -> in-scope functions that call it or take it as a value
+
+	ifaceMethodNames map[string]bool
 }
 
 func fieldRefOf(t types.Type, idx int) (FieldRef, bool) {
@@ -49,7 +52,7 @@ func fieldRefOf(t types.Type, idx int) (FieldRef, bool) {
 	if n.Obj().Pkg() != nil {
 		pkg = n.Obj().Pkg().Name()
 	}
-	return FieldRef{Type: n.Obj().Name(), Pkg: pkg, Field: s.Field(idx).Name()}, true
+	return FieldRef{Type: typeCanonName(n.Obj()), Pkg: pkg, Field: s.Field(idx).Name()}, true
 }
 
 // classify how the address produced by a FieldAddr is used: "r", "w" or "rw"/"escape".
@@ -124,6 +127,7 @@ func BuildIndex(p *Program) *Index {
 			}
 		}
 	}
+	ix.buildRefs()
 	return ix
 }
 
@@ -182,4 +186,170 @@ func isConstructorLike(fn *ssa.Function) bool {
 		return true
 	}
 	return fn.Name() == "Build" || fn.Name() == "ToExecutor"
+}
+
+// ---- reference graph ------------------------------------------------------------------------------
+//
+// Refs[f] lists the in-scope functions that mention f: by a static call, by creating a closure over it, by
+// taking it as a (bound) method value or function value. It is the basis of ownership rules that must not
+// depend on how code is split into helpers: a store "belongs to" every function from which the helper that
+// contains it is (only) reachable.
+
+func (ix *Index) resolveFnValue(v ssa.Value) *ssa.Function {
+	switch x := v.(type) {
+	case *ssa.Function:
+		f := origin(x)
+		if f.Synthetic != "" && f.Object() != nil {
+			if tf, ok := f.Object().(*types.Func); ok {
+				if g := ix.P.Prog.FuncValue(tf.Origin()); g != nil {
+					return origin(g)
+				}
+			}
+		}
+		return f
+	case *ssa.MakeClosure:
+		return ix.resolveFnValue(x.Fn)
+	}
+	return nil
+}
+
+func (ix *Index) buildRefs() {
+	ix.Refs = map[*ssa.Function][]*ssa.Function{}
+	ix.ifaceMethodNames = map[string]bool{}
+	for _, rel := range scopePkgs {
+		pk := ix.P.ByPath[ix.P.pkgPath(rel)]
+		sc := pk.Types.Scope()
+		for _, n := range sc.Names() {
+			if tn, ok := sc.Lookup(n).(*types.TypeName); ok {
+				if it, ok := tn.Type().Underlying().(*types.Interface); ok {
+					for i := 0; i < it.NumMethods(); i++ {
+						ix.ifaceMethodNames[it.Method(i).Name()] = true
+					}
+				}
+			}
+		}
+	}
+	seen := map[[2]*ssa.Function]bool{}
+	for _, fn := range ix.P.Funcs {
+		for _, b := range fn.Blocks {
+			for _, in := range b.Instrs {
+				for _, op := range in.Operands(nil) {
+					if op == nil || *op == nil {
+						continue
+					}
+					t := ix.resolveFnValue(*op)
+					if t == nil || !ix.P.InScope[t] || t == fn {
+						continue
+					}
+					k := [2]*ssa.Function{t, fn}
+					if !seen[k] {
+						seen[k] = true
+						ix.Refs[t] = append(ix.Refs[t], fn)
+					}
+				}
+			}
+		}
+	}
+}
+
+// isRoot: a function that code outside the analysed call chains can reach directly: exported API, a method
+// that (by name) may fill an interface slot, init, or anything nobody in scope mentions.
+func (ix *Index) isRoot(fn *ssa.Function) bool {
+	if fn.Parent() != nil {
+		return len(ix.Refs[fn]) == 0
+	}
+	if len(ix.Refs[fn]) == 0 {
+		return true
+	}
+	if token.IsExported(fn.Name()) {
+		return true
+	}
+	if fn.Signature.Recv() != nil && ix.ifaceMethodNames[fn.Name()] {
+		return true
+	}
+	return false
+}
+
+// Within reports whether every way of reaching fn passes through a function satisfying allowed (fn itself
+// included), i.e. climbing the reference graph from fn meets `allowed` before it meets a root.
+func (ix *Index) Within(fn *ssa.Function, allowed func(*ssa.Function) bool) bool {
+	return ix.within(fn, allowed, map[*ssa.Function]bool{})
+}
+
+func (ix *Index) within(fn *ssa.Function, allowed func(*ssa.Function) bool, onPath map[*ssa.Function]bool) bool {
+	if allowed(fn) {
+		return true
+	}
+	if ix.isRoot(fn) || onPath[fn] {
+		return false
+	}
+	onPath[fn] = true
+	defer delete(onPath, fn)
+	for _, r := range ix.Refs[fn] {
+		if !ix.within(r, allowed, onPath) {
+			return false
+		}
+	}
+	return true
+}
+
+// RootsOf lists the roots from which fn is reachable (fn itself when it is a root).
+func (ix *Index) RootsOf(fn *ssa.Function) []*ssa.Function {
+	seen := map[*ssa.Function]bool{}
+	var out []*ssa.Function
+	var walk func(f *ssa.Function)
+	walk = func(f *ssa.Function) {
+		if seen[f] {
+			return
+		}
+		seen[f] = true
+		if ix.isRoot(f) {
+			out = append(out, f)
+			return
+		}
+		for _, r := range ix.Refs[f] {
+			walk(r)
+		}
+	}
+	walk(fn)
+	sort.Slice(out, func(i, j int) bool { return ix.P.FuncName(out[i]) < ix.P.FuncName(out[j]) })
+	return out
+}
+
+// rootKey: "pkg.Name" of a root without its receiver type, so that renaming an unexported type is not a change.
+func (ix *Index) rootKey(fn *ssa.Function) string {
+	pkg := ""
+	if fn.Pkg != nil {
+		pkg = fn.Pkg.Pkg.Name()
+	}
+	name := fn.Name()
+	for f := fn; f.Parent() != nil; f = f.Parent() {
+		name = f.Parent().Name() + "$"
+	}
+	return pkg + "." + name
+}
+
+// RootKeys: sorted distinct rootKey of RootsOf(fn).
+func (ix *Index) RootKeys(fn *ssa.Function) []string {
+	m := map[string]bool{}
+	for _, r := range ix.RootsOf(fn) {
+		m[ix.rootKey(r)] = true
+	}
+	var out []string
+	for k := range m {
+		out = append(out, k)
+	}
+	sort.Strings(out)
+	return out
+}
+
+// WithinNames: Within with `allowed` given as FuncNames (canonical names accepted).
+func (ix *Index) WithinNames(fn *ssa.Function, names ...string) bool {
+	set := map[*ssa.Function]bool{}
+	for _, n := range names {
+		if f := ix.P.Func(n); f != nil {
+			set[f] = true
+		}
+	}
+	return ix.Within(fn, func(f *ssa.Function) bool { return set[f] })
 }
